@@ -60,6 +60,8 @@ impl MT111 {
         let field_59 = parser.parse_optional_field::<Field59NoOption>("59")?;
         let field_75 = parser.parse_optional_field::<Field75>("75")?;
 
+        crate::parser::utils::verify_parser_complete(&parser)?;
+
         Ok(MT111 {
             field_20,
             field_21,
